@@ -245,6 +245,9 @@ func CaseLabels(c *Case, v *VResult) map[string]bool {
 		if ii.Zones.GraphCyclic {
 			l["zone-graph-cyclic"] = true
 		}
+		if ii.Zones.AsOwn {
+			l["zone-as-own-type"] = true
+		}
 		if len(ii.RanOK) >= 3 {
 			l["invoke-ran>=3"] = true
 		}
